@@ -4,7 +4,6 @@
 package witness
 
 import (
-	"os"
 	"strings"
 	"testing"
 	"unicode"
@@ -63,16 +62,18 @@ func TestC02_UpperAsciiImage(t *testing.T) {
 	}
 }
 
-// Pending finding tags-set-nil (notes/proposed-fixes/tags-set-nil.diff): Set on a nil Tags
-// reports success although the value is lost.  Runs only with VERIF_PENDING=1; rename to
-// TestC01_TagsSetNil once the fix is committed.
-func TestPendingC01_TagsSetNil(t *testing.T) {
-	if os.Getenv("VERIF_PENDING") == "" {
-		t.Skip("pending finding; set VERIF_PENDING=1 to run")
-	}
+// Set on a nil Tags must not report success while the value is lost (repaired in 637a0fa:
+// it returns an error; a value-receiver method cannot allocate the map for the caller).
+func TestC01_TagsSetNil(t *testing.T) {
 	var tags girc.Tags
 	err := tags.Set("a", "b")
 	if v, ok := tags.Get("a"); err == nil && (!ok || v != "b") {
 		t.Fatalf("Set on a nil Tags returned nil but Get gives (%q, %v)", v, ok)
+	}
+	ev := &girc.Event{Command: "TAGMSG", Params: []string{"#c"}}
+	if err := ev.Tags.Set("+draft/reply", "x"); err == nil {
+		if v, ok := ev.Tags.Get("+draft/reply"); !ok || v != "x" {
+			t.Fatalf("Event.Tags.Set on a fresh event returned nil and lost the tag")
+		}
 	}
 }
